@@ -179,6 +179,8 @@ func (svc *service) start() error {
 		}
 	}
 
+	verifLife("start", svc)
+
 	// Processor is responsible for reading messages out of the buffer and processing
 	// them accordingly.
 	svc.wgStarted.Add(1)
@@ -217,6 +219,7 @@ func (svc *service) stop() {
 		return
 	}
 	defer verifEvent("stop.done", svc, 0, 0, 0, "")
+	verifLife("stop.begin", svc)
 
 	// Close quit channel, effectively telling all the goroutines it's time to quit
 	if svc.done != nil {
@@ -235,6 +238,7 @@ func (svc *service) stop() {
 
 	// Wait for all the goroutines to stop.
 	svc.wgStopped.Wait()
+	verifLife("stop.joined", svc)
 
 	log.Debugf("(%s) Received %d bytes in %d messages", svc.cid(), svc.inStat.bytes, svc.inStat.msgs)
 	log.Debugf("(%s) Sent %d bytes in %d messages", svc.cid(), svc.outStat.bytes, svc.outStat.msgs)
@@ -256,6 +260,7 @@ func (svc *service) stop() {
 	// Publish will message if WillFlag is set. Server side only.
 	if !svc.client && svc.sess.Cmsg.WillFlag() {
 		log.Warningf("(%s) Connection unexpectedly closed, sending will message", svc.cid())
+		verifLife("stop.will", svc)
 		svc.onPublish(svc.sess.Will)
 	}
 
